@@ -52,7 +52,7 @@ def frames(prop):
     add({'C10'}, lambda: F.absent(
         'frame/all_observers-keyed-by-id', r'\bao\.insert\((?!\s*obs\.id\(\)\s*,\s*obs\.clone\(\)\s*\))', ST))
     add({'C10', 'C05', 'C07'}, lambda: F.only_in(
-        'frame/clone-sentinel-touched-only-by-new-and-drop', r'\bsentinel\b', {'new', 'drop', None}, ['src/public.rs'], min_hits=4))
+        'frame/clone-sentinel-touched-only-by-new-and-drop', r'\bsentinel\b', {'new', 'drop', None}, ['src/public.rs'], min_hits=4, strict=True))
 
     add({'C10', 'C07', 'C05', 'C09'}, lambda: F.in_order(
         'frame/add_new_observers-visits-every-queued-observer-and-handles-the-node', 'src/state.rs', 'add_new_observers',
